@@ -17,7 +17,7 @@ const (
 	rC02Group = "ORDABS.group-keys"
 	rC02TX    = "TX.binders"
 	rC02Dep   = "ORDABS.dependency-graph"
-	rC02Dedup = "TABLE.hash-bucket-dedup"
+	rC02Dedup = "ORDABS.reducers-over-rows"
 )
 
 func checkC02(c *core.Ctx) {
@@ -26,13 +26,12 @@ func checkC02(c *core.Ctx) {
 	c.Rule(rC02Group, "evalDo, evaluated on rows whose group keys are distinct constants with equal hashes: one group per distinct key value, each reducer sees exactly the rows of its group, one fact emitted per group and none for an empty input", 1)
 	c.Rule(rC02TX, "rewrite.getVars covers every premise kind that can bind a variable", 1)
 	c.Rule(rC02Dep, "an aggregated mention is a negative dependency edge (forces the body into a lower stratum)", 1)
-	c.Rule(rC02Dedup, "the distinct-collecting reducers search their hash buckets with Equals and only ever extend them", 3)
 	c02Rewrite(c)
 	c02Input(c)
 	c02Group(c)
 	termKindCoverage(c, rC02TX, []txSpec{{"rewrite", "getVars", []string{"ast.Atom", "ast.Eq", "ast.TemporalLiteral", "ast.TemporalAtom"}, "a variable bound only by a premise kind without a case is not a column of the internal relation, and distinct body solutions are merged before the reducer runs"}})
 	c03DepGraphRule(c, rC02Dep)
-	c07DedupRule(c, rC02Dedup)
+	c07ReducerLaws(c, rC02Dedup)
 	c.Rule("ORDABS.aggregation-edge-never-weakened", "depGraph.addEdge, evaluated on every prior state of an edge and both polarities: an edge that records an aggregated (negative) mention is never overwritten by a later or earlier positive mention of the same predicate, so recursion through an aggregation is always seen by stratification (obligation shared with C03)", 1)
 	c.Under("ORDABS.aggregation-edge-never-weakened", []string{rC03Edge}, func() { c03AddEdge(c) })
 }
